@@ -92,7 +92,14 @@ func (f *FBaseProcessor) Process(iprot, oprot *FProtocol) error {
 	if err := iprot.ReadMessageEnd(ctx); err != nil {
 		return err
 	}
-	ex := thrift.NewTApplicationException(APPLICATION_EXCEPTION_UNKNOWN_METHOD, "Unknown function "+name)
+	// The reply names the function twice (message name and exception text).
+	// Keep the text short so that the reply to a request which fit the
+	// transport's size limit fits it as well.
+	shown := name
+	if len(shown) > 256 {
+		shown = shown[:256] + "..."
+	}
+	ex := thrift.NewTApplicationException(APPLICATION_EXCEPTION_UNKNOWN_METHOD, "Unknown function "+shown)
 	f.writeMu.Lock()
 	defer f.writeMu.Unlock()
 	if err := oprot.WriteResponseHeader(fctx); err != nil {
